@@ -137,13 +137,17 @@ def rule (a : AState) : Call → Rule
                             args := [(nb, .ebadname), (db, .ebaddim), (inUse, .enameinuse)],
                             late := growsInData (oldLen < newLen) a.mode }
   -- blocking data access: collective APIs in collective data mode, independent in independent
-  | .rw isPut coll v text cb _ =>
+  -- a zero-length request is subject to the same ncid / permission / mode / varid rules; varn with num == 0
+  -- has no start/count to test (undocumented detail, as implemented)
+  | .rw isPut coll v text cb varn zl =>
                           { writes := isPut, wh := if coll then .collOnly else .indepOnly,
-                            args := vNoGlobal v ++ [(text != (v == .chr), .echar), (cb, .einvalcoords)] }
+                            args := vNoGlobal v ++ [(text != (v == .chr), .echar), (cb && !(varn && zl), .einvalcoords)] }
   -- nonblocking posts: any mode; bput needs an attached buffer (undocumented order w.r.t. coordinates)
-  | .post k v text cb  => { writes := k != .iget, wh := .anyMode,
+  | .post k v text cb varn zl =>
+                          { writes := k != .iget, wh := .anyMode,
                             args := vNoGlobal v ++ [(text != (v == .chr), .echar),
-                                                    (k == .bput && !a.abuf, .enullabuf), (cb, .einvalcoords)] }
+                                                    (k == .bput && !a.abuf && !(varn && zl), .enullabuf),
+                                                    (cb && !(varn && zl), .einvalcoords)] }
   | .wait coll _       => { writes := false, wh := if coll then .collOnly else .indepOnly }
   | .cancel _          => { writes := false, wh := .anyMode }
   | .sync              => { writes := false, wh := .dataOnly }
@@ -192,9 +196,9 @@ def effect (a : AState) : Call → AState
   | .beginIndep  => { a with mode := .indep }
   | .endIndep    => { a with mode := .coll }
   | .defVar _ isRec => { a with recDef := a.recDef || isRec }
-  | .post .iget _ _ _ => { a with nGet := a.nGet + 1 }
-  | .post .iput _ _ _ => { a with nPut := a.nPut + 1 }
-  | .post .bput _ _ _ => { a with nPut := a.nPut + 1, nBput := a.nBput + 1 }
+  | .post .iget _ _ _ _ zl => if zl then a else { a with nGet := a.nGet + 1 }   -- zero-length: nothing is queued
+  | .post .iput _ _ _ _ zl => if zl then a else { a with nPut := a.nPut + 1 }
+  | .post .bput _ _ _ _ zl => if zl then a else { a with nPut := a.nPut + 1, nBput := a.nBput + 1 }
   | .wait _ zero => if zero then a else { a with nGet := 0, nPut := 0, nBput := 0 }
   | .cancel zero => if zero then a else { a with nGet := 0, nPut := 0, nBput := 0 }
   | .attach _    => { a with abuf := true }
